@@ -474,6 +474,72 @@ fn check_display_busy(spec: &'static Spec, variant: &str, rep: &mut Report) {
 
 /// clauses 4 and 5 for the other display-type calls and contexts: display after every full-frame
 /// entry point and after settings changes, display_new_frame, combined new-frame call
+/// "any other plane the call writes receives a complete uniform fill ... never a partial one" also when
+/// the caller's slice has another length than the frame (the drivers stream whatever they are given): a fill
+/// is sized by the panel, not by the caller's slice. Reference: the same call with a full-size buffer.
+fn check_fill_other_length(spec: &'static Spec, variant: &str, rep: &mut Report) {
+    if spec.family == Family::Acep {
+        return;
+    }
+    for e in spec.full {
+        if e.plane2.is_some() {
+            continue;
+        }
+        let full = spec.entry_buf_len(e);
+        let row = ((spec.w + 7) / 8) as usize;
+        let other = 1 - e.plane;
+        let fills_of = |len: usize| -> Option<Vec<Vec<u8>>> {
+            let mut rig = Rig::simple(spec);
+            for p in prefix_for(spec, e) {
+                if !rig.apply(&p).is_ok() {
+                    return None;
+                }
+            }
+            rig.board.borrow_mut().chip_mut().mark();
+            if !rig.apply(&Op::img(e.k, Img::Coded { salt: 0xC01 + len as u32, len })).is_ok() {
+                return None;
+            }
+            let b = rig.board.borrow();
+            let segs = op_segments(&b.log);
+            let (_, s, en) = *segs.last().unwrap();
+            Some(payloads(&b.log[s..en], &b.bytes, ram_opcode(spec, other)))
+        };
+        let Some(reference) = fills_of(full) else { continue };
+        // only where the call fills the other plane with one repeated value
+        let uniform = |p: &Vec<u8>| !p.is_empty() && p.iter().all(|x| *x == p[0]);
+        if reference.is_empty() || !reference.iter().all(uniform) {
+            continue;
+        }
+        for len in [full / 2 / row.max(1) * row.max(1), full.saturating_sub(row), row, full + row] {
+            if len == 0 || len == full {
+                continue;
+            }
+            rep.eval(spec.name);
+            let Some(got) = fills_of(len) else {
+                rep.count("other_lengths_rejected_by_driver", 1);
+                continue;
+            };
+            rep.count("other_plane_fills_checked_other_length", 1);
+            rep.nontrivial(hash_str(&format!("{}|filllen|{}|{}", spec.name, e.k.name(), len)));
+            let want: Vec<usize> = reference.iter().map(|p| p.len()).collect();
+            let have: Vec<usize> = got.iter().map(|p| p.len()).collect();
+            if want != have || !got.iter().all(uniform) {
+                let op = Op::img(e.k, Img::Coded { salt: 0xC01 + len as u32, len });
+                let mut ops = prefix_for(spec, e);
+                ops.push(op);
+                rep.fail(Failure {
+                    panel: spec.name.into(),
+                    entry: e.k.name().into(),
+                    class: "other-plane-partial".into(),
+                    tags: vec!["other-length".into()],
+                    detail: format!("with a buffer of {} bytes (the frame is {}) the fill of plane {} is sent as {:?} bytes, with a full-size buffer as {:?}", len, full, other, have, want),
+                    case: case_json(spec, variant, &ops).set("buffer_len", len),
+                });
+            }
+        }
+    }
+}
+
 fn check_display_more(spec: &'static Spec, variant: &str, rep: &mut Report) {
     // (4) in contexts: [settings?; full entry (+ protocol prefix); display]
     let mut settings: Vec<Option<Op>> = vec![None, Some(Op::arg(K::SetBg, 0))];
@@ -943,6 +1009,7 @@ pub fn run(ctx: &Ctx) -> Report {
     for spec in panels_for(ctx) {
         check_display(spec, &ctx.variant, &mut rep);
         check_display_more(spec, &ctx.variant, &mut rep);
+        check_fill_other_length(spec, &ctx.variant, &mut rep);
         check_display_busy(spec, &ctx.variant, &mut rep);
     }
     // pixel path
